@@ -1,143 +1,112 @@
 # Table consumed by gen_manifest.py: add(pid, technique, level text, level note, design ref)
+_CH = "CrossHair (bounded symbolic execution of the real Python functions, z3 deciding every branch)"
+
+add("C01",
+    _CH + " of Saml2Client.parse_authn_request_response over a generated family of signature-wrapping documents, with xmlsec1 replaced by a digest-faithful in-process model; identity oracle",
+    "For assertion-, response- and both-signed originals and every generated rewrite (in-place edits; Signature moved to another element; assertion swapped for an EncryptedAssertion that opens to an unsigned one; "
+    "evil Assertion / evil wrapping Response with fresh or duplicate ID carrying no / copied / forged / both Signatures, the original dropped or relocated to 6 places, with or without its own Signature) under 4 "
+    "signature-requiring option settings, and for two-/three-document histories on one SP object: whenever the SP accepts, the subject and attribute value it reads are the signed ones; the pristine document is accepted exactly when what is required is signed.",
+    "Decisive assumption: the xmlsec1 contract in harness/xmlsecmodel.py (ID registration per element name, first-wins duplicates, first Signature in document order, same-document dereference, enveloped transform). "
+    "Documents are concrete per path (generator indices symbolic). Trusted: CrossHair/z3, clock model, AST cuts.",
+    "DESIGN.md 3/C01")
+add("C02",
+    _CH + " of Saml2Client.parse_authn_request_response -> Entity._parse_response -> AuthnResponse over the whole signature-requirement table with symbolic options and verdicts",
+    "Exhaustive over the finite table (3 options x what is signed x verdict of each present signature x plain/encrypted): acceptance equals the documented predicate (every present signature verifies and every enabled requirement is met by a present signature), through the public client entry point on really parsed documents.",
+    "Trusted: CrossHair/z3; xmlsec1 replaced by a stub backend answering per node id (contract: True or SignatureError; decrypt returns prepared plaintext); fixed clock; AST cuts.",
+    "DESIGN.md 3/C02")
+add("C03",
+    _CH + " of SecurityContext._check_signature with a real MetadataStore (certs / extract_certs) over symbolic key-descriptor uses, claimed issuer, caller-supplied outer issuer, actual signing certificate, embedded certificate and only_use_keys_in_metadata",
+    "For every assignment of key uses in a two-entity federation, claimed Issuer (own, other entity, unknown, absent, padded), outer issuer, actual signing key (any metadata certificate or an embedded-only one), embedded KeyInfo certificate and flag value: "
+    "accepted iff the signing certificate is a signing/unspecified-use certificate of the effective issuer, or (flag off and the issuer has none) equals the embedded one; no other certificate is even tried; MissingKey when the flag is on and metadata has no key.",
+    "Trusted: CrossHair/z3 (index enumeration); xmlsec1 by contract (verifies iff handed the signer's certificate); object-level metadata; fake temp files.",
+    "DESIGN.md 3/C03")
 add("C04",
-    "CrossHair symbolic execution of condition_ok/_bearer_confirmed/authn_statement_ok/issue_instant_ok/session_info through AuthnResponse.loads+verify with seven symbolic instants; z3 decides every clock position",
-    "Bounded symbolic execution of the real validity-window code: for every integer placement of now, slack and the seven instants inside the stated ranges and every presence subset, "
-    "acceptance implies every present bound is respected, roomy profile-shaped responses are accepted, and session_info reports the documented expiry. Confirmed over all paths per partition, each with a reachability twin.",
+    _CH + " of condition_ok/_bearer_confirmed/authn_statement_ok/issue_instant_ok/session_info through AuthnResponse.loads+verify with seven symbolic instants; z3 decides every clock position",
+    "For every integer placement of now, slack and the seven instants inside the stated ranges and every presence subset, acceptance implies every present bound is respected, roomy profile-shaped responses are accepted, and session_info reports the documented expiry. Confirmed over all paths per partition, each with a reachability twin.",
     "Trusted: CrossHair/z3; integer clock model replacing strptime/timegm/gmtime (monotone bijection at 1 s); parsed-object hand-over instead of expat; AST cuts of log/message formatting. Outside: ties, sub-second, slack > 10 y.",
     "DESIGN.md 3/C04")
-
-NOT_APPLICABLE.update({
-    "C11": "deciding code is expat/defusedxml (C) reacting to document text plus a syntactic inventory of parser call sites; "
-           "neither can be executed symbolically nor is a solver question (DESIGN.md 3/C11)",
-})
-for _p in ("C01", "C02", "C03", "C05", "C06", "C07", "C08", "C09", "C10", "C12", "C13", "C14", "C15", "C16", "C17", "C18", "C19", "C20"):
-    NOT_APPLICABLE.setdefault(_p, "check under construction in this build round; not yet claimed")
-
 add("C05",
-    "CrossHair symbolic execution of AuthnResponse.loads/verify (solicitation, destination, audience, recipient checks) on handed-over objects; Destination also as a symbolic string decided by z3",
-    "Bounded symbolic execution of the real addressing/solicitation code over the full product of InResponseTo x confirmation InResponseTo x Destination x audience restrictions x Recipient x allow_unsolicited x conv_info x pattern: "
+    _CH + " of AuthnResponse.loads/verify (solicitation, destination, audience, recipient checks) on handed-over objects; Destination also as a symbolic string decided by z3",
+    "Over InResponseTo x 1-2 bearer confirmations (InResponseTo same / unknown / absent / another outstanding request; 5 Recipients) x Destination near-miss catalogue x 0-2 AudienceRestrictions x allow_unsolicited x conv_info x destination pattern: "
     "acceptance implies every clause of the property, conforming responses are accepted and routed to the right caller; every Destination string of <= 40 chars decided by z3.",
     "Trusted: CrossHair/z3; parsed-object hand-over; fixed valid clock; AST cuts. Catalogues are finite (listed in evidence bounds); dest_string cuts schema validation.",
     "DESIGN.md 3/C05")
 add("C06",
-    "CrossHair symbolic execution of status_ok/_verify/verify over the finite status x second-level x version table, exception class compared with an independently written table",
-    "Exhaustive (finite table) symbolic execution: every non-Success status and every non-2.0 version is rejected without identity, with the documented exception class per standard second-level code; Success+2.0 is accepted. Requests: three request classes x versions.",
+    _CH + " of status_ok/_verify/verify over the finite status x second-level x version table (exception class compared with an independently written table) and with Version as an arbitrary symbolic string",
+    "Every non-Success status and every Version other than exactly '2.0' (16-entry catalogue incl. strings float() equates with 2.0; any string <= 4 chars) is rejected without identity, with the documented exception class per standard second-level code; Success+2.0 is accepted. Responses and three request classes.",
     "Trusted: CrossHair/z3; parsed-object hand-over; expected classes transcribed by hand from the documented names.",
     "DESIGN.md 3/C06")
-for _p in ("C05", "C06"):
-    NOT_APPLICABLE.pop(_p, None)
-
-add("C09",
-    "CrossHair symbolic execution of Entity.response_args/pick_binding and the MetadataStore lookups with the consumer URL as a symbolic string (z3 decides equality with every registered endpoint)",
-    "For every AssertionConsumerServiceURL string of <= 44 chars (or none), index, ProtocolBinding and issuer (two registered SPs, unknown, padded, the IdP itself) the derived destination is an endpoint the requester's own configuration registers for the chosen binding and equals the requested URL, else the request is refused.",
-    "Trusted: CrossHair/z3; metadata store loaded from library-generated SP metadata outside the trace; expected endpoints taken from the SP configuration.",
-    "DESIGN.md 3/C09")
-add("C20",
-    "CrossHair symbolic execution of the xmlsec1 call sites (validate_signature/_run_xmlsec/parse_xmlsec_output, _check_signature cert loop, sign_statement, encrypt_assertion, decrypt_keys) against a process model whose return code, stdout, stderr and output file are symbolic",
-    "Every observable of a tool run is an arbitrary value (return code incl. signals, stdout, stderr as symbolic strings up to 4/6 chars, output file text, cannot start); verification returns True only when success was genuinely reported, signing/encryption with no result raise, decryption returns only genuinely produced text.",
-    "Trusted: CrossHair/z3; process boundary model (Popen, temp files); what a successful-looking run wrote is xmlsec1's responsibility.",
-    "DESIGN.md 3/C20")
-for _p in ("C09", "C20"):
-    NOT_APPLICABLE.pop(_p, None)
-
-add("C02",
-    "CrossHair symbolic execution of Saml2Client.parse_authn_request_response -> Entity._parse_response -> AuthnResponse over the whole signature-requirement table with symbolic options and verdicts",
-    "Exhaustive over the finite table (3 options x what is signed x verdict of each present signature x plain/encrypted): acceptance equals the documented predicate (every present signature verifies and every enabled requirement is met by a present signature), through the public client entry point on really parsed documents.",
-    "Trusted: CrossHair/z3; xmlsec1 replaced by a stub backend answering per node id (contract: True or SignatureError; decrypt returns prepared plaintext); fixed clock; AST cuts.",
-    "DESIGN.md 3/C02")
-add("C17",
-    "CrossHair symbolic execution of Server.create_authn_response (encryption branches of Entity._response) against a cipher model, and of the SP decrypt/validate path over content mutations inside the ciphertext",
-    "IdP side: over sign x sign x encrypt x self-contained x advice x SP-has-cert x tool-fails, no identity sentinel occurs outside the ciphertext token when encryption was requested for an SP with an encryption certificate. "
-    "SP side: a decrypted assertion is accepted exactly when its plain twin is (7 content mutations x signature x keys first/second/none x options); undecryptable content never yields an identity.",
-    "Trusted: CrossHair/z3; cipher by contract (opaque token bound to the recipient certificate, decrypt iff key matches); signature verdicts by stub; fixed clock.",
-    "DESIGN.md 3/C17")
-for _p in ("C02", "C17"):
-    NOT_APPLICABLE.pop(_p, None)
-
 add("C07",
-    "CrossHair symbolic execution of Server.create_authn_response -> setup_assertion -> Assertion.apply_policy -> Policy.restrict/filter over symbolic identity subsets x policy shapes x SP declarations, released attributes compared with an independent reference",
-    "For every subset of a 4-attribute identity (incl. multi-valued mail and an undeclared attribute), 8 policy shapes and 4 SP declarations (incl. unsatisfiable requirements), what the returned Response asserts is a subset of the reference release computed from the documentation; error responses carry no attributes.",
+    _CH + " of Server.create_authn_response -> setup_assertion -> Assertion.apply_policy -> Policy.restrict/filter over symbolic identity subsets x policy shapes x SP declarations, released attributes compared with an independent reference",
+    "For every subset of a 4-attribute identity (incl. multi-valued mail and an undeclared attribute), 10 policy shapes and 4 SP declarations (incl. unsatisfiable requirements and per-SP entries inheriting the default key by key), what the returned Response asserts is a subset of the reference release computed from the documentation; error responses carry no attributes.",
     "Trusted: CrossHair/z3; reference release function in harness/c07.py; regexes from a fixed list; unsigned/unencrypted responses read at object level.",
     "DESIGN.md 3/C07")
-NOT_APPLICABLE.pop("C07", None)
-
+add("C08",
+    _CH + " driving the full IdP->SP flow (Server.create_authn_response -> real serialisation -> base64 or SOAP envelope -> Saml2Client.parse_authn_request_response) over symbolic indices into an alphabet of hostile values, with model signing/encryption",
+    "IdP and SP built from each other's generated metadata: for attribute values and NameID text from a 21-entry alphabet (XML-special, quotes, non-ASCII, astral, padded, empty, line breaks, backslashes, comment/element/declaration look-alikes, ']]>', long), 4 NameID formats, 3 authn classes, POST and SOAP, sign x sign x encrypt and 4 satisfied SP requirement settings, "
+    "the response is accepted and ava, name_id, in_response_to, issuer, came_from, authn class and session expiry equal what was asserted; the SP finds exactly one assertion with exactly the asserted attributes.",
+    "Weaker than the purely symbolic checks: content is concrete per path (z3 enumerates the index space); quick samples one diagonal per alphabet entry, thorough the pair grid. Trusted: model backend for sign/verify/encrypt/decrypt; clock model.",
+    "DESIGN.md 3/C08")
+add("C09",
+    _CH + " of Entity.response_args/pick_binding and the MetadataStore lookups with the consumer URL as a symbolic string (z3 decides equality with every registered endpoint), a near-miss catalogue and two-request histories",
+    "For every AssertionConsumerServiceURL string of <= 44 chars (or none), index, ProtocolBinding and issuer (two registered SPs, unknown, padded, the IdP itself), for 15 catalogued near misses and for a second request following an answered one on the same IdP object: the derived destination is an endpoint the requester's own configuration registers for the chosen binding and equals the requested URL, else the request is refused.",
+    "Trusted: CrossHair/z3; metadata store loaded from library-generated SP metadata outside the trace; expected endpoints taken from the SP configuration.",
+    "DESIGN.md 3/C09")
 add("C10",
-    "CrossHair symbolic execution of Request._loads/_verify/issue_instant_ok with Destination as a symbolic string and symbolic clock, and of Server.parse_authn_request -> Entity._parse_request -> correctly_signed_message over signature x verdict x want_authn_requests_signed x Destination x binding",
+    _CH + " of Request._loads/_verify/issue_instant_ok with Destination as a symbolic string and symbolic clock, and of Server.parse_authn_request -> Entity._parse_request -> correctly_signed_message over signature x verdict x want_authn_requests_signed x Destination x binding",
     "Acceptance of a request implies Version 2.0, Destination absent or one of the receiver's endpoints (every string <= 40 chars; 0-2 endpoints), IssueInstant within a day plus allowance, schema validity; a present signature must verify on (request element, its ID), unsigned requests are refused when signatures are wanted; wrong-root, garbled and truncated encodings are refused.",
     "Trusted: CrossHair/z3; xmlsec1 by contract (stub verdicts); parsed-object hand-over for the field checks; clock model. only_valid_cert option outside the claim.",
     "DESIGN.md 3/C10")
-NOT_APPLICABLE.pop("C10", None)
-
-add("C16",
-    "CrossHair symbolic execution of InMemoryMetaData.do_entity_descriptor / MetadataStore.service / certs / load('remote') + parse_and_check_signature over symbolic federation shapes, clock and verification outcomes",
-    "Two-source federations with symbolic endpoint subsets, duplicates, validUntil vs symbolic clock and every (entity, binding) query return exactly the declared endpoints, with unknown vs unsupported distinguished and expired entities unserved; certs() returns exactly the entity's certificates of the requested or unspecified use; "
-    "signed metadata with a configured certificate is served only if verification answered True (False and raising both covered); generated SP metadata loads back to the configured endpoints and keys.",
-    "Trusted: CrossHair/z3; metadata enters as md objects (no XML parsing except signed_md and roundtrip fixtures); HTTP fetch and verification are stubs; clock model.",
-    "DESIGN.md 3/C16")
-NOT_APPLICABLE.pop("C16", None)
-
-add("C13",
-    "CrossHair symbolic execution of validate.valid_instance (and class verify overrides) per schema class: one declared constraint violated at a time, selected by symbolic indices, inside generated valid instances at the root and under each parent",
-    "For every class with declared constraints (156 core classes + every class with an enumerated type in quick; all schema modules in thorough) and every (constraint, removal mode, bad value, nesting parent, cardinality excess) the violated instance is rejected and the unviolated one accepted - confirmed over all paths per class.",
-    "Trusted: CrossHair/z3; instance generator; bad-value catalogue; 'declared bounds' = c_cardinality; classes whose generated instance is not accepted are excluded by name in the evidence.",
-    "DESIGN.md 3/C13")
-NOT_APPLICABLE.pop("C13", None)
-
 add("C12",
-    "CrossHair symbolic execution of SamlBase._to_element_tree -> create_class_from_element_tree per schema class with symbolic attribute/text values, symbolic child-presence mask and foreign content; generic structural comparison",
-    "For each of the 281 core classes (quick; all ~1140 classes in thorough) and every attribute/text string <= 3 chars, every 6-bit subset of declared children, list cardinality 1-2 and foreign attribute/child present or not: parse(serialise(x)) has the same type, attributes, text, children and extension content, children are emitted in declared order, and re-serialising gives an equal tree.",
+    _CH + " of SamlBase._to_element_tree -> create_class_from_element_tree per schema class with symbolic attribute/text values, symbolic child-presence mask and nested foreign content; generic structural comparison; base-then-derived serialisation histories",
+    "For each of the 281 core classes (quick; all ~1140 classes in thorough; the non-core modules get a concrete smoke pass in quick) and every attribute/text string <= 3 chars, every 6-bit subset of declared children, list cardinality 1-2 and foreign attribute / nested foreign child present or not: parse(serialise(x)) has the same type, attributes, text, children and extension content, children are emitted in declared order, and re-serialising gives an equal tree.",
     "Trusted: CrossHair/z3; element-tree level (tostring/expat are C and outside); empty text treated as absent.",
     "DESIGN.md 3/C12")
-NOT_APPLICABLE.pop("C12", None)
-
+add("C13",
+    _CH + " of validate.valid_instance (and class verify overrides) per schema class: one declared constraint violated at a time, selected by symbolic indices, inside generated valid instances at the root and under each parent",
+    "For every class with declared constraints (core classes + every class with an enumerated type or an occurrence bound >= 2 in quick; all schema modules in thorough) and every (constraint, removal mode, bad value, nesting parent, cardinality excess) the violated instance is rejected and the unviolated one accepted - confirmed over all paths per class.",
+    "Trusted: CrossHair/z3; instance generator; bad-value catalogue (<= 7 per type); 'declared bounds' = c_cardinality; classes whose generated instance is not accepted are excluded by name in the evidence.",
+    "DESIGN.md 3/C13")
 add("C14",
-    "CrossHair-driven exploration of pack.http_form_post_message / http_redirect_message / make_soap_enveloped_saml_thingy, Entity.apply_binding and Entity.unravel over symbolic indices into alphabets of hostile characters, checked by independent standard readers",
-    "RelayState/message/text assembled from symbolic indices over alphabets containing every HTML/URL/XML-significant character: a conforming HTML parser recovers exactly the two fields, a URL parser exactly the parameters (destination query untouched, signed octets = spec-ordered prefix), an XML parser an element-identical SOAP body, and the real decoders return the original bytes.",
+    _CH + " driving pack.http_form_post_message / http_redirect_message / make_soap_enveloped_saml_thingy, Entity.apply_binding and Entity.unravel over symbolic indices into alphabets of hostile characters, checked by independent standard readers",
+    "RelayState/message/text assembled from symbolic indices over alphabets containing every HTML/URL/XML-significant character and backslash sequences: a conforming HTML parser recovers exactly the two fields, a URL parser exactly the parameters (destination query untouched, signed octets = spec-ordered prefix), an XML parser an element-identical SOAP body, and the real decoders return the original bytes.",
     "Weaker than the other checks: strings are concrete per path (arbitrary symbolic strings do not close through these encoders), so z3 only enumerates the index space. Trusted: stdlib html.parser / urllib.parse / ElementTree as independent readers.",
     "DESIGN.md 3/C14")
-NOT_APPLICABLE.pop("C14", None)
-
 add("C15",
-    "CrossHair-driven exploration of RSACrypto.get_signer / RSASigner.sign / verify interleavings (symbolic schedules of three entities) and of http_redirect_message + verify_redirect_signature under single-parameter mutations, with an ideal signature scheme",
-    "Every schedule of up to 4 (quick) / 5 (thorough) get_signer/sign steps by three entities with distinct keys: each signature is made with the requesting entity's key and verifies under no other; a signed redirect verifies iff unmutated and under the signer's key, for 13 mutations x 5 algorithms x 3 RelayStates x request/response.",
+    _CH + " of RSACrypto.get_signer / RSASigner.sign / verify interleavings (symbolic schedules of three entities), of two entities signing through Entity.apply_binding, and of http_redirect_message + verify_redirect_signature under single-parameter mutations, with an ideal signature scheme",
+    "Every schedule of up to 4 (quick) / 5 (thorough) get_signer/sign steps by three entities with distinct keys, and two real client entities signing redirects in either order: each signature is made with the requesting entity's key and verifies under no other; a signed redirect verifies iff unmutated and under the signer's key, for 14 mutations x 5 algorithms x 5 RelayStates (incl. percent escapes) x request/response.",
     "Trusted: CrossHair/z3; ideal signature scheme replacing the RSA primitives; call-granularity interleavings.",
     "DESIGN.md 3/C15")
-NOT_APPLICABLE.pop("C15", None)
-
-add("C19",
-    "CrossHair symbolic execution of Cache operation histories (set/reset/delete then a query battery: get_identity, get, active, entities, subjects) with symbolic expiry instants and clock, compared with a reference model",
-    "All 2-op and sampled 3-op histories (quick; all 3-op and sampled 4-op in thorough) over 9 operation codes on two subjects differing in one NameID field and two sources: every query result equals the reference model for every ordering of three symbolic expiries and the clock (ties included), with expiry checking on and off.",
-    "Trusted: CrossHair/z3; clock model; in-memory cache only (shelve-backed variant is I/O, outside); expiry 0 = reset marker excluded.",
-    "DESIGN.md 3/C19")
-NOT_APPLICABLE.pop("C19", None)
-
+add("C16",
+    _CH + " of InMemoryMetaData.parse / do_entity_descriptor / MetadataStore.service / certs / load('remote') + parse_and_check_signature over symbolic federation shapes, clock and verification outcomes",
+    "Two-source federations with symbolic endpoint subsets, duplicates, entity- and document-level validUntil vs symbolic clock and every (entity, binding) query return exactly the declared endpoints, with unknown vs unsupported distinguished and expired entities unserved; certs() returns exactly the entity's certificates of the requested or unspecified use; "
+    "signed metadata with a configured certificate is served only if verification answered True (False and raising both covered); generated SP metadata loads back to the configured endpoints and keys.",
+    "Trusted: CrossHair/z3; metadata enters as md objects or concrete documents with token timestamps; HTTP fetch and verification are stubs; clock model.",
+    "DESIGN.md 3/C16")
+add("C17",
+    _CH + " of Server.create_authn_response (encryption branches of Entity._response) against a cipher model, and of the SP decrypt/validate path over content mutations inside the ciphertext",
+    "IdP side: over sign x sign x encrypt x self-contained x PEFIM advice x SP-has-cert x tool-fails, no identity sentinel occurs outside the ciphertext token when encryption (of the assertion or of the advice assertion) was requested for an SP with an encryption certificate. "
+    "SP side: a decrypted assertion is accepted exactly when its plain twin is (7 content mutations x signature x keys first/second/none x options); undecryptable content never yields an identity.",
+    "Trusted: CrossHair/z3; cipher by contract (opaque token bound to the recipient certificate, decrypt iff key matches); signature verdicts by stub; fixed clock.",
+    "DESIGN.md 3/C17")
 add("C18",
-    "CrossHair-driven exploration of IdentDB operation histories (issue persistent/transient, withdraw, remove_local, manage-name-id, name-id-mapping over 2 users x 3 SPs) against a reference map, and of ident.code/decode over alphabet-indexed field contents",
+    _CH + " of IdentDB operation histories (issue persistent/transient, withdraw, remove_local, manage-name-id, name-id-mapping over 2 users x 3 SPs) against a reference map, and of ident.code/decode over alphabet-indexed field contents",
     "All 2-op histories and sampled 3-op histories (quick; all 3-op in thorough) over 24 operation codes: after every step each issued, unwithdrawn identifier resolves to exactly its user, withdrawn ones to nobody, find_nameid lists only real identifiers, persistent ids are stable per (user, SP) and distinct otherwise, transient ids fresh. "
     "code/decode round-trips every field and code is injective for fields built from separators, percent signs, spaces, look-alike prefixes and non-ASCII text.",
     "Trusted: CrossHair/z3 (index enumeration; strings concrete per path); id generator stub that never repeats; in-memory dict database.",
     "DESIGN.md 3/C18")
-NOT_APPLICABLE.pop("C18", None)
+add("C19",
+    _CH + " of Cache operation histories (set/reset/delete/mid-history read/clock tick, then a query battery: get_identity, get, active, entities, subjects) with symbolic expiry instants and clock, compared with a reference model",
+    "2-op, sampled 3-op and 4-op histories (quick; all 3-op and sampled 4-op in thorough) over 13 operation codes on three subjects (two differing in one NameID field, one lacking it) and two sources: every query result equals the reference model for every ordering of three symbolic expiries and two symbolic clock instants (ties included), with expiry checking on and off.",
+    "Trusted: CrossHair/z3; clock model; in-memory cache only (shelve-backed variant is I/O, outside); expiry 0 = reset marker excluded.",
+    "DESIGN.md 3/C19")
+add("C20",
+    _CH + " of the xmlsec1 call sites (validate_signature/_run_xmlsec/parse_xmlsec_output, _check_signature cert loop, sign_statement, encrypt_assertion, decrypt_keys, metadata verification) against a process model whose return code, stdout, stderr and output file are symbolic",
+    "Every observable of a tool run is an arbitrary value (return code incl. signals, stdout, stderr as symbolic strings up to 4/6 chars, output file text, cannot start); verification returns True only when success was genuinely reported, signing/encryption with no result raise, decryption returns only genuinely produced text, unverified metadata is never served afterwards.",
+    "Trusted: CrossHair/z3; process boundary model (Popen, temp files); what a successful-looking run wrote is xmlsec1's responsibility.",
+    "DESIGN.md 3/C20")
 
-add("C03",
-    "CrossHair-driven exploration of SecurityContext._check_signature with a real MetadataStore (certs / extract_certs) over symbolic key-descriptor uses, claimed issuer, actual signing certificate, embedded certificate and only_use_keys_in_metadata",
-    "For every assignment of key uses in a two-entity federation, claimed Issuer (own, other entity, unknown, absent, padded), actual signing key (any metadata certificate or an embedded-only one), embedded KeyInfo certificate and flag value: the signature is accepted iff the signing certificate is a signing/unspecified-use certificate of the claimed issuer, or (flag off and the issuer has none) equals the embedded one; no other certificate is even tried; MissingKey when the flag is on and metadata has no key.",
-    "Trusted: CrossHair/z3 (index enumeration); xmlsec1 by contract (verifies iff handed the signer's certificate); object-level metadata; fake temp files.",
-    "DESIGN.md 3/C03")
-NOT_APPLICABLE.pop("C03", None)
-
-add("C01",
-    "CrossHair-driven exploration of Saml2Client.parse_authn_request_response over a parameterised family of signature-wrapping documents derived from genuinely signed responses, with xmlsec1 replaced by a digest-faithful in-process model; identity oracle",
-    "For assertion-, response- and both-signed originals and every generated rewrite (in-place edits; Signature moved to another element; evil Assertion / evil wrapping Response with fresh or duplicate ID, carrying no / copied / forged / both Signatures, the original dropped or relocated to 6 places, with or without its own Signature) under 4 signature-requiring option settings: "
-    "whenever the SP accepts, the subject and attribute value it reads are the signed ones; the pristine document is accepted exactly when what is required is signed.",
-    "Decisive assumption: the xmlsec1 contract in harness/xmlsecmodel.py (ID registration per element name, first-wins duplicates, first Signature in document order, same-document dereference, enveloped transform). Documents are concrete per path (indices symbolic). Trusted: CrossHair/z3, clock model.",
-    "DESIGN.md 3/C01")
-NOT_APPLICABLE.pop("C01", None)
-
-add("C08",
-    "CrossHair-driven exploration of the full IdP->SP flow (Server.create_authn_response -> real serialisation -> base64 -> Saml2Client.parse_authn_request_response) over symbolic indices into an alphabet of hostile values, with model signing/encryption",
-    "IdP and SP built from each other's generated metadata: for attribute values and NameID text from a 19-entry alphabet (XML-special, quotes, non-ASCII, astral, padded, empty, line breaks, comment/element/declaration look-alikes, ']]>', long), 4 NameID formats, 3 authn classes, sign x sign x encrypt and 4 satisfied SP requirement settings, "
-    "the response is accepted and ava, name_id, in_response_to, issuer, came_from, authn class and session expiry equal what was asserted; the SP finds exactly one assertion with exactly the asserted attributes.",
-    "Weaker than the purely symbolic checks: content is concrete per path (z3 enumerates the index space); quick samples one diagonal per alphabet entry, thorough the pair grid. Trusted: model backend for sign/verify/encrypt/decrypt; clock model.",
-    "DESIGN.md 3/C08")
-NOT_APPLICABLE.pop("C08", None)
+NOT_APPLICABLE.update({
+    "C11": "deciding code is expat/defusedxml (C) reacting to document text plus a syntactic inventory of parser call sites; "
+           "neither can be executed symbolically nor is a solver question (DESIGN.md 4)",
+})
